@@ -10,7 +10,7 @@ let hexval c =
   | _ -> failwith "hex digit"
 
 (* positive from a list of bits, most significant first (leading one consumed) *)
-let pos_of_hex (s : string) : positive option =
+let pos_of_hex (s : Stdlib.String.t) : positive option =
   (* returns None for zero *)
   let acc = ref None in
   String.iter (fun c ->
@@ -37,7 +37,7 @@ let rec bits_of_pos (p : positive) (acc : bool list) : bool list =
   | XO q -> bits_of_pos q (false :: acc)
   | XI q -> bits_of_pos q (true :: acc)
 
-let hex_of_pos (p : positive) : string =
+let hex_of_pos (p : positive) : Stdlib.String.t =
   let bits = bits_of_pos p [] in
   let n = List.length bits in
   let pad = (4 - n mod 4) mod 4 in
@@ -66,11 +66,11 @@ let z_of_int i = if i < 0 then z_of_hex (Printf.sprintf "-%x" (-i)) else z_of_he
 
 (* bytes: "x" followed by hex digits; a byte is an N < 256 *)
 let byte_tbl : n array = Array.init 256 n_of_int
-let bytes_of_tok (s : string) : n list =
+let bytes_of_tok (s : Stdlib.String.t) : n list =
   if String.length s = 0 || s.[0] <> 'x' then failwith ("bytes token: " ^ s);
   let n = (String.length s - 1) / 2 in
   List.init n (fun i -> byte_tbl.(hexval s.[1 + 2*i] * 16 + hexval s.[2 + 2*i]))
-let tok_of_bytes (l : n list) : string =
+let tok_of_bytes (l : n list) : Stdlib.String.t =
   let buf = Buffer.create (2 * List.length l + 1) in
   Buffer.add_char buf 'x';
   List.iter (fun b -> Buffer.add_string buf (Printf.sprintf "%02x" (int_of_n b))) l;
@@ -85,5 +85,5 @@ let opt_of_tok f s = if s = "N" then None else Some (f s)
 let tok_of_opt f = function None -> "N" | Some x -> f x
 
 (* command registry *)
-let commands : (string, string list -> string) Hashtbl.t = Hashtbl.create 64
+let commands : (Stdlib.String.t, Stdlib.String.t list -> Stdlib.String.t) Hashtbl.t = Hashtbl.create 64
 let register name f = Hashtbl.replace commands name f
